@@ -638,18 +638,41 @@ async fn run_case(v: Value, scratch: &PathBuf) -> Value {
             let evdir = scratch.join("events");
             let evs = sync_events(&evdir, sent).await;
             let longest = evs.iter().map(|(_, m)| m.len()).max().unwrap_or(0);
+            let n = "c13".to_string();
+            let meta = gpa::telemetry::event_reader::VmMetaData {
+                container_id: n.clone(), tenant_name: n.clone(), role_name: n.clone(), role_instance_name: n.clone(),
+                subscription_id: n.clone(), resource_group_name: n.clone(), vm_id: n.clone(), image_origin: 3,
+            };
+            if v.get("oversize").and_then(|x| x.as_bool()).unwrap_or(false) {
+                // a hand-made event file (the reader does not care who wrote it): events that are over the
+                // 64 KiB limit on their own, plainly and only after escaping, between ordinary ones
+                let mk = |m: String, k: usize| proxy_agent_shared::telemetry::Event::new("Informational".to_string(), m, "telrun".to_string(), format!("c13-big{}", k));
+                let evs = vec![mk("x".to_string(), 0), mk("a".repeat(70000), 1), mk("y".repeat(20000), 2), mk("'".repeat(11000), 3),
+                               mk("z".repeat(30000), 4), mk("&".repeat(14000), 5), mk("w".to_string(), 6)];
+                let _ = proxy_agent_shared::misc_helpers::json_write_to_file(&evs, &evdir.join("0_c13_oversize.json"));
+            }
+            // rendered size of every event of every file, by the real code (file order)
+            let envelope = gpa::telemetry::telemetry_event::TelemetryData::new().get_size();
+            let mut file_sizes: Vec<Vec<usize>> = Vec::new();
+            if let Ok(rd) = std::fs::read_dir(&evdir) {
+                let mut fs: Vec<_> = rd.filter_map(|e| e.ok()).map(|e| e.path()).filter(|p| p.to_string_lossy().ends_with(".json")).collect();
+                fs.sort();
+                for f in fs {
+                    if let Ok(evs) = proxy_agent_shared::misc_helpers::json_read_from_file::<Vec<proxy_agent_shared::telemetry::Event>>(&f) {
+                        file_sizes.push(evs.iter().map(|e| {
+                            let mut d = gpa::telemetry::telemetry_event::TelemetryData::new();
+                            d.add_event(gpa::telemetry::telemetry_event::TelemetryEvent::from_event_log(e, meta.clone()));
+                            d.get_size() - envelope
+                        }).collect());
+                    }
+                }
+            }
             let files_before = std::fs::read_dir(&evdir).map(|d| d.count()).unwrap_or(0);
             let ok_reply = Reply { raw: b"HTTP/1.1 200 OK\r\nContent-Length: 0\r\n\r\n".to_vec(), pieces: vec![], pause_ms: 0, close: false };
             let mock = start_mock(vec![], Some(ok_reply)).await;
             let shared = gpa::shared_state::SharedState::start_all();
             let tel = shared.get_telemetry_shared_state();
-            let n = "c13".to_string();
-            let _ = tel
-                .set_vm_meta_data(Some(gpa::telemetry::event_reader::VmMetaData {
-                    container_id: n.clone(), tenant_name: n.clone(), role_name: n.clone(), role_instance_name: n.clone(),
-                    subscription_id: n.clone(), resource_group_name: n.clone(), vm_id: n.clone(), image_origin: 3,
-                }))
-                .await;
+            let _ = tel.set_vm_meta_data(Some(meta.clone())).await;
             let reader = gpa::telemetry::event_reader::EventReader::new(
                 evdir.clone(), false, shared.get_cancellation_token(), shared.get_key_keeper_shared_state(), tel.clone(),
                 shared.get_agent_status_shared_state(),
@@ -683,7 +706,7 @@ async fn run_case(v: Value, scratch: &PathBuf) -> Value {
             mock.handle.abort();
             done.store(true, Ordering::SeqCst);
             json!({"id": id, "op": op, "hung": false, "max_message_length": maxlen, "events_written": sent, "longest_queued": longest,
-                   "files_before": files_before, "files_left": files_left, "posts": posts, "reader_ended": reader_panicked,
+                   "files_before": files_before, "files_left": files_left, "posts": posts, "envelope": envelope, "file_sizes": file_sizes, "reader_ended": reader_panicked,
                    "heartbeats": beats.load(Ordering::SeqCst), "elapsed_ms": t0.elapsed().as_millis() as u64, "panics": take_panics()})
         }
         "events" => {
